@@ -92,3 +92,74 @@ package flood
 //@ prop C29
 //@ modifies *
 //@ at call cleanupSleepCmdCache assert $2 >= 2 * f.timestampWindow && $2 >= f.cfg.SeenCacheTTL
+
+// ---- C11 / C13 / C15: one hop of route flooding ----
+//
+// Receiving: an advertisement whose (origin, sequence) key is in the seen cache, or whose seen-by list
+// contains this agent, reaches neither the routing tables nor any peer; otherwise the key is recorded
+// before anything else happens, the routes are stored with the sender as next hop and the received
+// path, and the copy handed on has this agent appended to the seen-by list. Forwarding: the path is
+// extended by exactly this agent, every metric grows by one with it, and the copy goes to each
+// connected peer at most once, never to the sender and never to an agent in the seen-by list.
+
+//@ guarded Flooder.mu: seenCache
+
+//@ func (*Flooder).HandleRouteAdvertise
+//@ prop C11 C13 C15
+//@ modifies *
+//@ check lockset
+//@ after call Lock#0 let wasSeen = exists k AdvertisementKey: k.OriginAgent == originAgent && k.Sequence == sequence && has(f.seenCache, k)
+//@ after call containsAgent let looped = $ret
+//@ at call containsAgent assert $0 == seenBy && $1 == f.localID
+//@ ensures wasSeen ==> !result
+//@ ensures[C11] result ==> !looped
+//@ at[C11] call Unlock#1 assert forall k AdvertisementKey: k.OriginAgent == originAgent && k.Sequence == sequence ==> has(f.seenCache, k)
+//@ at[C11] call SetDisplayName assert !wasSeen
+//@ at[C11] call ProcessAgentRouteAdvertise assert !wasSeen && !looped
+//@ at[C11] call ProcessRouteAdvertise assert !wasSeen && !looped
+//@ at[C11] call ProcessDomainRouteAdvertise assert !wasSeen && !looped
+//@ at[C11] call ProcessForwardRouteAdvertise assert !wasSeen && !looped
+//@ at[C11] call floodAdvertisementEncrypted assert !wasSeen && !looped
+//@ at[C15] call ProcessAgentRouteAdvertise assert f.cfg.MaxHops > 0 ==> len(path) <= f.cfg.MaxHops
+//@ at[C15] call ProcessRouteAdvertise assert f.cfg.MaxHops > 0 ==> len(path) <= f.cfg.MaxHops
+//@ at[C15] call ProcessDomainRouteAdvertise assert f.cfg.MaxHops > 0 ==> len(path) <= f.cfg.MaxHops
+//@ at[C15] call ProcessForwardRouteAdvertise assert f.cfg.MaxHops > 0 ==> len(path) <= f.cfg.MaxHops
+//@ at[C15] call floodAdvertisementEncrypted assert f.cfg.MaxHops > 0 ==> len(path) <= f.cfg.MaxHops
+//@ after call DecodePath#1 let wirePath = $ret0
+//@ after call DecodePath#0 let legacyPath = $ret0
+//@ note the recorded path is empty (no usable path), or the decoding of the sealed legacy path, or the decoding of the plaintext path bytes of the advertisement
+//@ at[C13,C15] call DecodePath#1 assert encPath != nil && !encPath.Encrypted && $0 == encPath.Data
+//@ at[C13,C15] call ProcessRouteAdvertise assert $1 == fromPeer && $2 == originAgent && $3 == sequence && $5 == path && $6 == encPath && (len(path) == 0 || path == legacyPath || path == wirePath)
+//@ at[C13,C15] call ProcessDomainRouteAdvertise assert $1 == fromPeer && $2 == originAgent && $3 == sequence && $5 == path && $6 == encPath && (len(path) == 0 || path == legacyPath || path == wirePath)
+//@ at[C13,C15] call ProcessForwardRouteAdvertise assert $1 == fromPeer && $2 == originAgent && $3 == sequence && $5 == path && $6 == encPath && (len(path) == 0 || path == legacyPath || path == wirePath)
+//@ at[C13,C15] call ProcessAgentRouteAdvertise assert $1 == fromPeer && $2 == originAgent && $3 == sequence && $5 == path && $6 == encPath && $7 == (routes[rangeindex + 1].Metric + 1) % 65536
+//@ loop 0 invariant -1 <= rangeindex && rangeindex < len(routes)
+//@ note the per-entry copy r.Metric -> entry.Metric inside the conversion loop is not under contract (an exists-indexed invariant over three filtered lists does not discharge); the +1 is proved in routing.Manager.Process*RouteAdvertise and for agent-presence routes at the call below
+//@ at[C11,C13] call floodAdvertisementEncrypted assert $1 == fromPeer && $2 == originAgent && $4 == sequence && $5 == routes && $6 == encPath
+//@ at[C11] call floodAdvertisementEncrypted assert len($7) == len(seenBy) + 1 && $7[len(seenBy)] == f.localID && forall j in 0..len(seenBy): $7[j] == seenBy[j]
+
+//@ func containsAgent
+//@ prop C11
+//@ check bounds
+//@ loop 0 invariant -1 <= rangeindex && rangeindex < len(list) && forall j in 0..rangeindex+1: list[j] != id
+//@ ensures result <==> exists j in 0..len(list): list[j] == id
+
+//@ func (*Flooder).floodFrame
+//@ prop C11
+//@ modifies *
+//@ after call GetPeerIDs let peers = $ret
+//@ at call SendToPeer assert $1 != fromPeer && !(exists j in 0..len(seenBy): seenBy[j] == $1)
+//@ at call SendToPeer assert $2 == frame && 0 <= rangeindex + 1 && rangeindex + 1 < len(peers) && $1 == peers[rangeindex + 1]
+//@ note each connected peer is visited once (range over the list returned by GetPeerIDs) and receives the frame at most once per visit
+
+//@ func (*Flooder).floodAdvertisementEncrypted
+//@ prop C11 C13
+//@ modifies *
+//@ after call DecodePath let oldPath = $ret0
+//@ at call EncodePath assert len($0) == len(oldPath) + 1 && $0[0] == f.localID && forall k in 0..len(oldPath): $0[k + 1] == oldPath[k]
+//@ loop 0 invariant -1 <= rangeindex && rangeindex < len(routes) && len(fwdRoutes) == len(routes) && forall i in 0..rangeindex+1: fwdRoutes[i].Metric == ite(routes[i].Metric < 65535, routes[i].Metric + 1, 65535) && fwdRoutes[i].AddressFamily == routes[i].AddressFamily && fwdRoutes[i].PrefixLength == routes[i].PrefixLength && fwdRoutes[i].Prefix == routes[i].Prefix
+//@ at[C13] call (*RouteAdvertise).Encode assert len($0.Routes) == len(routes) && forall i in 0..len(routes): $0.Routes[i].Metric == ite(routes[i].Metric < 65535, routes[i].Metric + 1, 65535)
+//@ at[C13] call (*RouteAdvertise).Encode assert forall i in 0..len(routes): $0.Routes[i].AddressFamily == routes[i].AddressFamily && $0.Routes[i].PrefixLength == routes[i].PrefixLength && $0.Routes[i].Prefix == routes[i].Prefix
+//@ at call (*RouteAdvertise).Encode assert $0.OriginAgent == originAgent && $0.Sequence == sequence && $0.SeenBy == seenBy
+//@ at[C13] call (*RouteAdvertise).Encode assert encPath != nil && !encPath.Encrypted ==> $0.EncPath != nil && $0.EncPath != encPath && !$0.EncPath.Encrypted
+//@ at call floodFrame assert $1 == fromPeer && $2 == seenBy
